@@ -37,7 +37,9 @@ def oracle(scen, obs):
     if outcome != obs['outcome']:
         return 'outcome-differs-from-sequential'
     commits = [e for e in obs['log'] if e.startswith('C')]
-    if commits != log:
+    # the reference has no replay table: a run that replayed an earlier result of a pass has no commit events for it
+    # (that the replay writes what the pass would have produced is C10's property; the final files are still compared)
+    if commits != log and not any(e.startswith('R') for e in obs['log']):
         return 'accepted-sequence-differs-from-sequential'
     if obs['disk'] != disk:
         return 'final-file-differs-from-sequential'
